@@ -27,6 +27,7 @@ Checks (one per clause, so one red clause does not hide the others)
   C11/apply-target-encoding      DEC graphics -> alternate-charset byte with a "0" run; run lengths = length; under
                                  every ordered pair / triple of set_encoding calls (the encoding state is process-global:
                                  the answer must depend on the LAST encoding only)
+  C11/run-total-with-shift-controls  texts containing SO / SI themselves: run lengths total = encoded length, nothing raises
   C11/encoded-width              a str and its apply_target_encoding form are equally wide; every run (1..4, every width
                                  class, mixed) of characters the target encoding lacks keeps its width
   C11/encoding-switch            byte mode and output codec after every such sequence = those documented for the last
@@ -880,6 +881,41 @@ def check_ate(K, maxlen, targets=None, depth=2, deep_maxlen=1):
             check_temporary(K, enc)
 
 
+ATESH_ALPHA = ("a", "\u2500", "\x0f", "\x0e", "\u4e2d")
+
+
+def one_atesh(enc, codec, s):
+    d = {"encoding": enc, "codec": codec, "text": tx(s), "fn": "apply_target_encoding"}
+    try:
+        got_b, got_cs = util.apply_target_encoding(s)
+    except Exception as e:  # noqa: BLE001
+        return False, d | {"raised": type(e).__name__, "why": f"raised {type(e).__name__}: {e}"[:300]}
+    d |= {"got": [got_b.hex(), [list(r) for r in got_cs]]}
+    if sum(r[1] for r in got_cs) != len(got_b):
+        return False, d | {"why": "total run length differs from the encoded length"}
+    d["zero"] = any(r[1] <= 0 for r in got_cs)
+    return True, d
+
+
+def check_atesh(K, maxlen, enc):
+    chk = K["run-total-with-shift-controls"]
+    codec = ATE_BY_NAME[enc][0]
+    with Enc():
+        util.set_encoding(enc)
+        for n in range(0, maxlen + 1):
+            for p in itertools.product(ATESH_ALPHA, repeat=n):
+                s = "".join(p)
+                for form in (s, s.encode(codec, "replace")):
+                    ok, d = one_atesh(enc, codec, form)
+                    if ok:
+                        chk.passed((enc, form), 1)
+                        if d["zero"]:
+                            nn = chk.notes.setdefault("observations (not judged)", {})
+                            nn["texts whose run list has a zero-length run (a stray SO)"] = nn.get("texts whose run list has a zero-length run (a stray SO)", 0) + 1
+                    else:
+                        chk.fail((enc, form), d)
+
+
 # ---------------------------------------------------------------------------------------------
 # the encoded form is as wide as the str (C11/encoded-width)
 #
@@ -1068,6 +1104,7 @@ CLAUSES = {
     "invalid-double-byte/functions-agree": "wide mode, texts with lone lead bytes / stray high bytes: the same mutual agreement; offsets stay inside [start,end]",
     "apply-target-encoding": "apply_target_encoding(str) after every sequence of set_encoding calls: every DEC graphics character -> its alternate-charset byte inside a '0' run (for every encoding set last but UTF-8, whatever was set before), other characters -> their encoding in None runs; sum of runs = len(bytes)",
     "encoded-width": "a str and apply_target_encoding(str) have the same computed display width (calc_width of the str = sum of table widths = calc_width of the bytes under the encoding's byte mode); every RUN of characters the target encoding lacks is replaced by a stand-in exactly as wide as that run",
+    "run-total-with-shift-controls": "apply_target_encoding on texts that themselves contain the shift controls SO (0x0e) / SI (0x0f), as str and as encoded bytes: nothing raises and the total of the charset run lengths equals the encoded length (only this clause of the statement is judged here: which bytes stand for a stray control is not fixed by it; zero-length runs are counted in the notes, not judged)",
     "encoding-switch": "after every sequence of set_encoding calls the byte mode (utf8 / wide / narrow) and the output codec are the ones documented for the LAST encoding",
 }
 
@@ -1175,6 +1212,8 @@ def do_task(task):
             check_ate(K, task[1], (task[2],), task[3], task[4])
         elif kind == "encw":
             check_encw(K, task[1], (task[2],))
+        elif kind == "atesh":
+            check_atesh(K, task[1], task[2])
         elif kind == "random":
             run_group(K, GROUPS[task[2]], 0, random_texts(task[1], task[2]), task[3], task[4])
         else:
@@ -1193,6 +1232,7 @@ def plan(tier, seed):
     tasks += [("ate", 3 if quick else 4, e, 3, 1 if quick else 2) for e, _c, _m in ATE_ENCODINGS]
     # the encoded form keeps the str's width: one task per encoding, runs of <= 4 lacking characters
     tasks += [("encw", ENCW_MAXRUN if quick else ENCW_MAXRUN + 1, e) for e, _c, _m in ATE_ENCODINGS]
+    tasks += [("atesh", 4 if quick else 6, e) for e, _c, _m in ATE_ENCODINGS]
     tasks += [("scalars", i, 8) for i in range(8)]
     for gi, g in enumerate(GROUPS):
         n = sum(len(g[3]) ** k for k in range(lens[g[0]] + 1))
@@ -1238,6 +1278,7 @@ def run(tier="quick", seed=0, procs=None):
     bounds["encoded-width"] = (f"encodings {ate_names}, each set directly and after utf-8: every RUN of 1..{ENCW_MAXRUN if quick else ENCW_MAXRUN + 1} characters the codec lacks over <= {ENCW_PER_CLASS} representatives per width class "
                                "(one column, two columns, zero width; for utf-8: lone surrogates) -- alone, after 'a', before 'b', between 'a' and 'b', between two native characters "
                                f"(CJK / Latin-1 / Cyrillic / a DEC graphics character / a combining mark, as the encoding has them); every pair of runs of <= 2 separated by one encodable character")
+    bounds["run-total-with-shift-controls"] = f"encodings {ate_names}: all strings of <= {4 if quick else 6} over {[hex(ord(c)) for c in ATESH_ALPHA]} (letter, DEC graphics, SI, SO, CJK), each as str and as its encoded bytes"
     bounds["encoding-switch"] = f"encodings {ate_names}: every ordered pair and every ordered triple of set_encoding calls" + tmp_bound
     K = make_checks(bounds=bounds)
     rb = f"{RANDOM_PER_GROUP} seeded random texts of {RANDOM_LEN[0]}..{RANDOM_LEN[1]} characters per encoding group ({len(GROUPS)} groups), as str and bytes"
@@ -1289,6 +1330,10 @@ def replay(check_name, case):
             with contextlib.ExitStack() as stack:
                 switch_encoding(hist, stack)
                 ok, d = one_ate(case["encoding"], case["codec"], untx(case["text"]), hist)
+            return {"outcome": "not-reproduced" if ok else "confirmed", "detail": d}
+        if clause == "run-total-with-shift-controls":
+            util.set_encoding(case["encoding"])
+            ok, d = one_atesh(case["encoding"], case["codec"], untx(case["text"]))
             return {"outcome": "not-reproduced" if ok else "confirmed", "detail": d}
         if clause == "encoded-width":
             hist = tuple(case["history"])
